@@ -28,6 +28,13 @@ CHECKS = {
              "alphabet plus random longer paths are replayed through the real descriptors; TLC re-runs the model along each observed path and judges every access. "
              "The protocol state graphs are tiny, so all-paths replay decides the history dependence completely up to the path bound.",
         note=TB, technique="TLA+ spec + TLC model checking; exhaustive path replay through the real descriptor; TLC trace validation", ref="3 C12"),
+    "C18": dict(
+        text="TLC model-checks Alias.tla: a two-variable machine (target, local override) for all 192 configurations (passthrough x transform x fallback "
+             "{none, immutable, mutable} x path {t, o.t, d[k], o.d[k]} x host {plain, spec class with the alias as managed int attribute} x Deprecated) with "
+             "action properties Shadow, Live, Passthrough, Missing, ReadsPure. All access paths of length 3 (thorough 4) over {alias/target read, write, delete, "
+             "copy-on-write helper, deepcopy} plus random paths of length 8-10 are replayed through real Alias/DeprecatedAlias descriptors, recording value, exception "
+             "class, target/override state, fallback identity and warning count; TLC re-runs the model along every observed path.",
+        note=TB, technique="TLA+ spec + TLC model checking; exhaustive path replay through the real descriptor; TLC trace validation", ref="3 C18"),
 }
 
 PENDING = "check not built yet in this round (see DESIGN.md section 3 for the planned TLA+ module)"
